@@ -8,11 +8,7 @@ VERIF = os.path.dirname(os.path.dirname(os.path.abspath(__file__)))
 sys.path.insert(0, VERIF)
 
 ALL = ["C%02d" % i for i in range(1, 21)]
-NA_REASONS = {
-    "C17": "every clause is a numeric identity over runtime decimal values (count/sum/mean/variance/range, "
-           "order independence, non-negativity up to rounding); no clause is enforced by code shape, so a static "
-           "rule would only freeze the formula text (DESIGN.md section 6)",
-}
+NA_REASONS = {}
 PENDING = "rule pack not implemented yet in this revision (see DESIGN.md section 10); no claim is made"
 
 checks = []
